@@ -16,6 +16,9 @@ type c06Route struct {
 	Name  string   `json:"name,omitempty"`
 	Types []string `json:"types,omitempty"`
 	NS    []string `json:"namespaces,omitempty"`
+	// a route is the conjunction of its matchers, also of two of the same kind
+	Types2 []string `json:"and_types,omitempty"`
+	NS2    []string `json:"and_namespaces,omitempty"`
 }
 
 type c06Pkt struct {
@@ -42,6 +45,9 @@ const (
 	nsVersion    = "jabber:iq:version"
 	nsDiscoInfo  = "http://jabber.org/protocol/disco#info"
 	nsDiscoItems = "http://jabber.org/protocol/disco#items"
+	nsCommands   = "http://jabber.org/protocol/commands"
+	nsPubSub     = "http://jabber.org/protocol/pubsub"
+	nsRoster     = "jabber:iq:roster"
 )
 
 func init() {
@@ -57,38 +63,47 @@ func init() {
 
 // refRoute is the reference router, written from the documented rules.
 func refRoute(routes []c06Route, p c06Pkt) int {
+	typeIn := func(p c06Pkt, list []string) bool {
+		if p.Kind != "message" && p.Kind != "presence" && p.Kind != "iq" {
+			return false
+		}
+		t := p.Type
+		if p.Kind == "message" && t == "" {
+			t = "normal"
+		}
+		for _, x := range list {
+			if strings.ToLower(x) == t {
+				return true
+			}
+		}
+		return false
+	}
+	nsIn := func(p c06Pkt, list []string) bool {
+		if p.Kind == "iq" && p.Payload != "" {
+			for _, x := range list {
+				if strings.ToLower(x) == p.Payload {
+					return true
+				}
+			}
+		}
+		return false
+	}
 	for i, r := range routes {
 		ok := true
 		if r.Name != "" && strings.ToLower(r.Name) != p.Kind {
 			ok = false
 		}
 		if ok && r.Types != nil {
-			if p.Kind != "message" && p.Kind != "presence" && p.Kind != "iq" {
-				ok = false
-			} else {
-				t := p.Type
-				if p.Kind == "message" && t == "" {
-					t = "normal"
-				}
-				found := false
-				for _, x := range r.Types {
-					if strings.ToLower(x) == t {
-						found = true
-					}
-				}
-				ok = found
-			}
+			ok = typeIn(p, r.Types)
+		}
+		if ok && r.Types2 != nil {
+			ok = typeIn(p, r.Types2)
 		}
 		if ok && r.NS != nil {
-			found := false
-			if p.Kind == "iq" && p.Payload != "" {
-				for _, x := range r.NS {
-					if strings.ToLower(x) == p.Payload {
-						found = true
-					}
-				}
-			}
-			ok = found
+			ok = nsIn(p, r.NS)
+		}
+		if ok && r.NS2 != nil {
+			ok = nsIn(p, r.NS2)
 		}
 		if ok {
 			return i
@@ -105,7 +120,7 @@ func runC06(e *Engine, g G, o RunOpt) RunInfo {
 	sc.Deferred = g.Pct("deferred-build", 25)
 	nr := g.Range("nroutes", 0, 6)
 	typePool := []string{"chat", "normal", "groupchat", "headline", "error", "get", "set", "result", "unavailable", "subscribe", "Chat", "GET"}
-	nsPool := []string{nsVersion, nsDiscoInfo, nsDiscoItems, "urn:xmpp:ping", "x:y"}
+	nsPool := []string{nsVersion, nsDiscoInfo, nsDiscoItems, "urn:xmpp:ping", "x:y", nsCommands, nsPubSub, nsRoster}
 	for i := 0; i < nr; i++ {
 		var r c06Route
 		if g.Pct("catchall", 15) {
@@ -128,6 +143,12 @@ func runC06(e *Engine, g G, o RunOpt) RunInfo {
 			for j := 0; j < k; j++ {
 				r.NS = append(r.NS, nsPool[g.N("ns", len(nsPool))])
 			}
+		}
+		if r.Types != nil && g.Pct("second-type-list", 15) {
+			r.Types2 = []string{typePool[g.N("type2", len(typePool))], r.Types[g.N("type2-shared", len(r.Types))]}
+		}
+		if r.NS != nil && g.Pct("second-ns-list", 15) {
+			r.NS2 = []string{nsPool[g.N("ns2", len(nsPool))], r.NS[g.N("ns2-shared", len(r.NS))]}
 		}
 		sc.Routes = append(sc.Routes, r)
 	}
@@ -162,7 +183,14 @@ func runC06(e *Engine, g G, o RunOpt) RunInfo {
 		case 2:
 			t := []string{"get", "set", "result", "error"}[g.Weighted("it", 4, 3, 2, 1)]
 			pl, ns := "", ""
-			switch g.N("ipl", 6) {
+			switch g.N("ipl", 9) {
+			case 6:
+				// payloads with a decoder of their own
+				pl, ns = "<command xmlns='"+nsCommands+"' node='list' action='execute'/>", nsCommands
+			case 7:
+				pl, ns = "<pubsub xmlns='"+nsPubSub+"'><subscriptions/></pubsub>", nsPubSub
+			case 8:
+				pl, ns = "<query xmlns='"+nsRoster+"'><item jid='a@"+SimDomain+"'/></query>", nsRoster
 			case 0:
 				pl, ns = "<query xmlns='"+nsVersion+"'/>", nsVersion
 			case 1:
@@ -237,6 +265,12 @@ func runC06(e *Engine, g G, o RunOpt) RunInfo {
 			}
 			if rt.NS != nil {
 				route.IQNamespaces(append([]string(nil), rt.NS...)...)
+			}
+			if rt.Types2 != nil {
+				route.StanzaType(append([]string(nil), rt.Types2...)...)
+			}
+			if rt.NS2 != nil {
+				route.IQNamespaces(append([]string(nil), rt.NS2...)...)
 			}
 			route.HandlerFunc(func(s xmpp.Sender, p stanza.Packet) {
 				kind, id, _ := packetInfo(p)
